@@ -3,71 +3,456 @@ package ssaexec
 import (
 	"fmt"
 	"go/types"
+	"sync"
 
 	"golang.org/x/tools/go/ssa"
 )
 
-// Chan is a bounded FIFO with a closed flag (DESIGN §2.6).
+// Tasks, channels and yield points (DESIGN §2.6).
+//
+// `go f()` creates a task (a coroutine: its own goroutine, but only the holder
+// of the baton runs). Control moves between tasks only at synchronisation
+// points: channel operations, select, task start/end, sync/atomic accesses,
+// time.Sleep, contended mutexes/WaitGroups and verifrt.Yield. At such a point
+// the choice of the next runnable task is engine nondeterminism (m.choose),
+// explored exhaustively under a preemption bound plus a fairness bound (a task
+// that has been runnable for fairLimit yield points is scheduled). Interleaving is
+// sequentially consistent at these points only; data races are invisible.
+
 type Chan struct {
 	buf    []value
 	cap    int
 	closed bool
-	id     int
+}
+
+type selCase struct {
+	ch   *Chan
+	send bool
+	val  value
+}
+
+type fireInfo struct {
+	idx       int
+	val       value
+	ok        bool
+	sendPanic bool // the channel was closed under a blocked sender
 }
 
 type task struct {
-	id   int
-	fn   value
-	args []value
-	done bool
+	id       int
+	fn       value
+	args     []value
+	resume   chan struct{}
+	started  bool
+	done     bool
+	blocked  bool
+	pending  []selCase
+	waitCond func() bool
+	fired    *fireInfo
+	cur      *frame
+	depth    int
+	waited   int // yield points spent runnable but not running
+	isMain   bool
+}
+
+type taskKilled struct{}
+
+type sched struct {
+	tasks       []*task
+	cur         *task
+	main        *task
+	killed      bool
+	abort       interface{} // panic value raised in a non-main task, re-raised in main
+	wg          sync.WaitGroup
+	yields      int
+	preemptions int
+	maxPreempt  int
+	fairLimit   int
+	atYield     map[int]value // yield index -> func() to call there
+	mutexHeld   map[*value]*task
+	wgCount     map[*value]int64
+}
+
+func (m *Machine) sch() *sched { return m.path.sched }
+
+func newSched() *sched {
+	s := &sched{maxPreempt: 2, fairLimit: 2, atYield: map[int]value{}, mutexHeld: map[*value]*task{}}
+	s.main = &task{id: 0, resume: make(chan struct{}), started: true, isMain: true}
+	s.tasks = []*task{s.main}
+	s.cur = s.main
+	return s
 }
 
 func (m *Machine) makeChan(n int) *Chan {
+	if n < 0 {
+		m.rtPanic("makechan: size out of range")
+	}
 	return &Chan{cap: n}
 }
 
+// ---- task switching ----
+
+func (m *Machine) runnable(t *task) bool {
+	if t.done {
+		return false
+	}
+	if t.blocked {
+		if t.fired != nil {
+			return true
+		}
+		if t.waitCond != nil && t.waitCond() {
+			return true
+		}
+		return false
+	}
+	return true
+}
+
+// switchTo hands the baton to t and parks the current task until it is resumed.
+func (m *Machine) switchTo(t *task) {
+	s := m.sch()
+	cur := s.cur
+	if t == cur {
+		return
+	}
+	cur.cur, cur.depth = m.cur, m.depth
+	s.cur = t
+	m.cur, m.depth = t.cur, t.depth
+	t.waited = 0
+	m.wake(t)
+	m.park(cur)
+}
+
+func (m *Machine) wake(t *task) {
+	s := m.sch()
+	if !t.started {
+		t.started = true
+		s.wg.Add(1)
+		go m.taskMain(t)
+		return
+	}
+	t.resume <- struct{}{}
+}
+
+func (m *Machine) park(t *task) {
+	<-t.resume
+	s := m.sch()
+	if s.killed && !t.isMain {
+		panic(taskKilled{})
+	}
+	if t.isMain && s.abort != nil {
+		r := s.abort
+		s.abort = nil
+		panic(r)
+	}
+}
+
+func (m *Machine) taskMain(t *task) {
+	s := m.sch()
+	defer s.wg.Done()
+	defer func() {
+		r := recover()
+		if _, k := r.(taskKilled); k {
+			return
+		}
+		t.done = true
+		if r != nil {
+			// an uncaught Go panic in a goroutine crashes the program; engine aborts
+			// must also reach the path runner: re-raise in the main task
+			s.abort = r
+			s.cur = s.main
+			m.cur, m.depth = s.main.cur, s.main.depth
+			s.main.resume <- struct{}{}
+			return
+		}
+		// normal end: hand the baton on
+		next := m.pickNext(t)
+		if next == nil {
+			// nothing can run: if main is blocked forever this is a deadlock
+			s.abort = pathEnd{"deadlock:all-tasks-blocked"}
+			s.cur = s.main
+			m.cur, m.depth = s.main.cur, s.main.depth
+			s.main.resume <- struct{}{}
+			return
+		}
+		s.cur = next
+		m.cur, m.depth = next.cur, next.depth
+		next.waited = 0
+		m.wake(next)
+	}()
+	m.cur, m.depth = nil, 0
+	m.call(nil, 0, t.fn, t.args)
+}
+
+// pickNext chooses a runnable task other than `not` (nondeterministically).
+func (m *Machine) pickNext(not *task) *task {
+	s := m.sch()
+	var cands []*task
+	for _, t := range s.tasks {
+		if t != not && m.runnable(t) {
+			cands = append(cands, t)
+		}
+	}
+	if len(cands) == 0 {
+		return nil
+	}
+	return cands[m.choose(len(cands), "schedule")]
+}
+
+// blockCurrent parks the current task until it becomes runnable again.
+func (m *Machine) blockCurrent() {
+	s := m.sch()
+	cur := s.cur
+	for {
+		if m.runnable(cur) {
+			return
+		}
+		next := m.pickNext(cur)
+		if next == nil {
+			// everything is blocked: time passes until the next injected event
+			if len(s.atYield) > 0 {
+				first := -1
+				for k := range s.atYield {
+					if first < 0 || k < first {
+						first = k
+					}
+				}
+				f := s.atYield[first]
+				delete(s.atYield, first)
+				// the event runs on this goroutine while the task stays registered as
+				// blocked, so that the event itself (e.g. closing a channel) can fire it
+				m.call(m.cur, 0, f, nil)
+				continue
+			}
+			if cur.isMain {
+				panic(pathEnd{"deadlock:main-blocked-forever"})
+			}
+			panic(pathEnd{"deadlock:all-tasks-blocked"})
+		}
+		m.switchTo(next)
+	}
+}
+
+// yield is a synchronisation point: an injected event may fire and another
+// runnable task may be scheduled.
+func (m *Machine) yield() { m.yieldKind(true) }
+
+// softYield is a synchronisation point at which only injected events and the
+// fairness rule apply (used for atomic loads: a read publishes nothing, so a
+// voluntary preemption right before it is equivalent to one at the preceding
+// write-type synchronisation point).
+func (m *Machine) softYield() { m.yieldKind(false) }
+
+func (m *Machine) yieldKind(mayPreempt bool) {
+	if m.path == nil || m.path.sched == nil {
+		return
+	}
+	s := m.sch()
+	s.yields++
+	if f, ok := s.atYield[s.yields]; ok {
+		delete(s.atYield, s.yields)
+		m.call(m.cur, 0, f, nil)
+	}
+	if len(s.tasks) == 1 {
+		return
+	}
+	cur := s.cur
+	var others []*task
+	forced := (*task)(nil)
+	for _, t := range s.tasks {
+		if t != cur && m.runnable(t) {
+			others = append(others, t)
+			t.waited++
+			if t.waited > s.fairLimit && forced == nil {
+				forced = t
+			}
+		}
+	}
+	if len(others) == 0 {
+		return
+	}
+	if forced != nil {
+		m.switchTo(forced)
+		return
+	}
+	if !mayPreempt || s.preemptions >= s.maxPreempt {
+		return
+	}
+	k := m.choose(len(others)+1, "preempt")
+	if k == 0 {
+		return
+	}
+	s.preemptions++
+	m.switchTo(others[k-1])
+}
+
 func (m *Machine) spawn(fr *frame, instr *ssa.Go, fn value, args []value) {
-	t := &task{id: len(m.tasks) + 1, fn: fn, args: args}
-	m.tasks = append(m.tasks, t)
-	m.logUndo(func() { m.tasks = m.tasks[:len(m.tasks)-1] })
+	if m.path == nil || m.path.sched == nil {
+		panic(unsupported("go statement outside a path"))
+	}
+	s := m.sch()
+	t := &task{id: len(s.tasks), fn: fn, args: args, resume: make(chan struct{})}
+	s.tasks = append(s.tasks, t)
+	m.yield()
+}
+
+// killTasks ends every task goroutine of the path (called by the path runner).
+func (m *Machine) killTasks() {
+	if m.path == nil || m.path.sched == nil {
+		return
+	}
+	s := m.sch()
+	s.killed = true
+	for _, t := range s.tasks {
+		if t.isMain || !t.started || t.done {
+			continue
+		}
+		// every live non-main task is parked on its resume channel
+		t.resume <- struct{}{}
+	}
+	s.wg.Wait()
+}
+
+// ---- channel operations ----
+
+func (m *Machine) findBlocked(ch *Chan, wantSend bool) (*task, int) {
+	s := m.sch()
+	for _, t := range s.tasks {
+		if !t.blocked || t.fired != nil || t == s.cur {
+			continue
+		}
+		for i, c := range t.pending {
+			if c.ch == ch && c.send == wantSend {
+				return t, i
+			}
+		}
+	}
+	return nil, -1
+}
+
+func (m *Machine) caseReady(c selCase) bool {
+	if c.ch == nil {
+		return false
+	}
+	if c.send {
+		if c.ch.closed || len(c.ch.buf) < c.ch.cap {
+			return true
+		}
+		t, _ := m.findBlocked(c.ch, false)
+		return t != nil
+	}
+	if len(c.ch.buf) > 0 || c.ch.closed {
+		return true
+	}
+	t, _ := m.findBlocked(c.ch, true)
+	return t != nil
+}
+
+// execCase performs a ready case of the current task.
+func (m *Machine) execCase(c selCase) (value, bool) {
+	ch := c.ch
+	if c.send {
+		if ch.closed {
+			m.rtPanicPlain("send on closed channel")
+		}
+		if len(ch.buf) == 0 {
+			if t, i := m.findBlocked(ch, false); t != nil {
+				t.fired = &fireInfo{idx: i, val: copyVal(c.val), ok: true}
+				return nil, false
+			}
+		}
+		old := ch.buf
+		ch.buf = append(append([]value{}, ch.buf...), copyVal(c.val))
+		m.logUndo(func() { ch.buf = old })
+		return nil, false
+	}
+	if len(ch.buf) > 0 {
+		v := ch.buf[0]
+		old := ch.buf
+		ch.buf = append([]value{}, ch.buf[1:]...)
+		m.logUndo(func() { ch.buf = old })
+		// a sender blocked on the full buffer can now complete
+		if t, i := m.findBlocked(ch, true); t != nil {
+			ch.buf = append(ch.buf, copyVal(t.pending[i].val))
+			t.fired = &fireInfo{idx: i}
+		}
+		return v, true
+	}
+	if t, i := m.findBlocked(ch, true); t != nil {
+		v := copyVal(t.pending[i].val)
+		t.fired = &fireInfo{idx: i}
+		return v, true
+	}
+	if ch.closed {
+		return nil, false
+	}
+	panic(engineFault("execCase: case not ready"))
+}
+
+// selectCases implements select over the given cases.
+func (m *Machine) selectCases(cases []selCase, blocking bool) (int, value, bool) {
+	if m.path == nil || m.path.sched == nil {
+		panic(unsupported("channel operation outside a path"))
+	}
+	s := m.sch()
+	cur := s.cur
+	for {
+		var ready []int
+		for i, c := range cases {
+			if m.caseReady(c) {
+				ready = append(ready, i)
+			}
+		}
+		if len(ready) > 0 {
+			i := ready[m.choose(len(ready), "select")]
+			v, ok := m.execCase(cases[i])
+			m.yield()
+			return i, v, ok
+		}
+		if !blocking {
+			return -1, nil, false
+		}
+		cur.blocked, cur.pending, cur.fired = true, cases, nil
+		m.blockCurrent()
+		cur.blocked, cur.pending = false, nil
+		if f := cur.fired; f != nil {
+			cur.fired = nil
+			if f.sendPanic {
+				m.rtPanicPlain("send on closed channel")
+			}
+			return f.idx, f.val, f.ok
+		}
+	}
 }
 
 func (m *Machine) chanSend(c *Chan, v value) {
 	if c == nil {
-		panic(pathEnd{"deadlock:send-on-nil-chan"})
+		// blocks forever
+		m.blockForever("send on nil channel")
 	}
-	if c.closed {
-		m.rtPanicPlain("send on closed channel")
-	}
-	if len(c.buf) < c.cap {
-		c.buf = append(c.buf, copyVal(v))
-		m.logUndo(func() { c.buf = c.buf[:len(c.buf)-1] })
-		return
-	}
-	panic(unsupported("blocking channel send (task model not enabled)"))
+	m.selectCases([]selCase{{ch: c, send: true, val: v}}, true)
 }
 
 func (m *Machine) chanRecv(c *Chan, commaOk bool, et types.Type) value {
 	if c == nil {
-		panic(pathEnd{"deadlock:recv-on-nil-chan"})
+		m.blockForever("receive from nil channel")
 	}
-	if len(c.buf) > 0 {
-		v := c.buf[0]
-		old := c.buf
-		c.buf = c.buf[1:]
-		m.logUndo(func() { c.buf = old })
-		if commaOk {
-			return tuple{v, true}
-		}
-		return v
+	_, v, ok := m.selectCases([]selCase{{ch: c}}, true)
+	if !ok {
+		v = zero(et)
 	}
-	if c.closed {
-		if commaOk {
-			return tuple{zero(et), false}
-		}
-		return zero(et)
+	if commaOk {
+		return tuple{v, ok}
 	}
-	panic(unsupported("blocking channel receive (task model not enabled)"))
+	return v
+}
+
+func (m *Machine) blockForever(why string) {
+	s := m.sch()
+	cur := s.cur
+	cur.blocked, cur.pending, cur.fired, cur.waitCond = true, nil, nil, nil
+	m.blockCurrent()
+	panic(engineFault("blockForever resumed: " + why))
 }
 
 func (m *Machine) chanClose(c *Chan) {
@@ -79,44 +464,54 @@ func (m *Machine) chanClose(c *Chan) {
 	}
 	c.closed = true
 	m.logUndo(func() { c.closed = false })
+	if m.path != nil && m.path.sched != nil {
+		s := m.sch()
+		for _, t := range s.tasks {
+			if !t.blocked || t.fired != nil {
+				continue
+			}
+			for i, pc := range t.pending {
+				if pc.ch != c {
+					continue
+				}
+				if pc.send {
+					t.fired = &fireInfo{idx: i, sendPanic: true}
+				} else if len(c.buf) == 0 {
+					t.fired = &fireInfo{idx: i, ok: false}
+				}
+				break
+			}
+		}
+		m.yield()
+	}
 }
 
-// rtPanicPlain raises a runtime panic whose text has no "runtime error: " prefix
-// in real Go either (plainError); we still model it as runtime.Error.
-func (m *Machine) rtPanicPlain(msg string) {
-	m.rtPanic(msg)
+// blockUntil parks the current task until cond holds.
+func (m *Machine) blockUntil(cond func() bool) {
+	if cond() {
+		return
+	}
+	s := m.sch()
+	cur := s.cur
+	cur.blocked, cur.pending, cur.fired, cur.waitCond = true, nil, nil, cond
+	m.blockCurrent()
+	cur.blocked, cur.waitCond = false, nil
 }
+
+func (m *Machine) rtPanicPlain(msg string) { m.rtPanic(msg) }
 
 func (m *Machine) doSelect(fr *frame, instr *ssa.Select) value {
-	// readiness evaluation in source order; no task switching yet
-	chosen := -1
-	var recvVal value
-	recvOk := false
+	cases := make([]selCase, len(instr.States))
 	for i, st := range instr.States {
 		c, _ := fr.get(st.Chan).(*Chan)
-		if c == nil {
-			continue
-		}
-		if st.Dir == types.RecvOnly {
-			if len(c.buf) > 0 || c.closed {
-				r := m.chanRecv(c, true, st.Chan.Type().Underlying().(*types.Chan).Elem()).(tuple)
-				recvVal, recvOk = r[0], r[1].(bool)
-				chosen = i
-				break
-			}
-		} else {
-			if c.closed {
-				m.rtPanicPlain("send on closed channel")
-			}
-			if len(c.buf) < c.cap {
-				m.chanSend(c, fr.get(st.Send))
-				chosen = i
-				break
-			}
+		cases[i] = selCase{ch: c, send: st.Dir == types.SendOnly}
+		if st.Send != nil {
+			cases[i].val = fr.get(st.Send)
 		}
 	}
-	if chosen < 0 && instr.Blocking {
-		panic(pathEnd{"deadlock:select"})
+	chosen, recvVal, recvOk := m.selectCases(cases, instr.Blocking)
+	if chosen >= 0 && cases[chosen].send {
+		recvOk = false
 	}
 	r := tuple{int64(chosen), recvOk}
 	for i, st := range instr.States {
